@@ -66,8 +66,8 @@ def bounded(tier, seed):
     n = 120 if tier == "quick" else 1200
     fill = [dict(width=w, semantic=False) for w in (88, 20, 8, 4, 1, 0)]
     sem = [dict(width=w, semantic=True) for w in (88, 20, 8, 0)]
-    r1 = P.sweep(seed, n, [P.same_structure], option_sets=fill, budget_s=25 if tier == "quick" else 600)
-    r2 = P.sweep(seed + 7919, n, [P.same_structure], option_sets=sem, hazards=False, budget_s=20 if tier == "quick" else 600)
+    r1 = P.sweep(seed, n, [P.same_structure, P.generated_tokens_present, P.generated_code_verbatim], option_sets=fill, budget_s=25 if tier == "quick" else 600)
+    r2 = P.sweep(seed + 7919, n, [P.same_structure, P.generated_tokens_present, P.generated_code_verbatim], option_sets=sem, hazards=False, budget_s=20 if tier == "quick" else 600)
     ev = []
     ne = escape_word_sweep(ev) + punctuation_sweep(ev)
     return {"evaluations": r1["evaluations"] + r2["evaluations"] + ne, "distinct_nontrivial": r1["distinct_nontrivial"] + r2["distinct_nontrivial"],
@@ -75,7 +75,7 @@ def bounded(tier, seed):
             "rule": "(also: _is_unicode_punctuation == the GFM definition on every code point below U+3000) (also: markdown_escape_word on every word of <= 4 symbols over an 11-symbol alphabet against the CommonMark block-start "
                     "rule) seeded documents from props/docspace.py x widths {88,20,8,4,1,0} fill mode (hazard words included) and "
                     "{88,20,8,0} semantic mode (no hazard words), cleanups/typography off, list_spacing=preserve: canonical tree of "
-                    "input == canonical tree of output; distinct = distinct outputs",
+                    "input == canonical tree of output, every inline construct of the generator's lexicon occurs as often as before and every generated top-level code block / info string is there verbatim (independent of the parser); distinct = distinct outputs",
             "exhaustive": False, "bound": "%d documents per mode, depth <= 2" % n}
 
 
